@@ -52,12 +52,46 @@ pub fn option_lists() -> Vec<Vec<(u16, B)>> {
         out.push(vec![(10, gen::bytes_n(l, 1))]);
     }
     out.extend(gen::opt_many_codes().into_iter().map(|o| o.options));
+    // options whose payload has an inner structure (client subnet and its neighbours)
+    out.extend(gen::structured_options().into_iter().map(|o| vec![o]));
     out
 }
 
 pub fn check_build(p: &RefPacket) -> Vec<Finding> {
     let mk = || json!({"kind": "build", "packet": p});
     let mut out = Vec::new();
+    // sinks that take only part of what they are offered: per write call, and in a gathered write
+    if p.opt.as_ref().map(|o| !o.options.is_empty()).unwrap_or(false) {
+        let r = guarded(|| -> Result<Vec<(String, String)>, String> {
+            let l = to_lib(p)?;
+            let want = l.build_bytes_vec().map_err(|e| format!("{:?}", e))?;
+            let mut bad = Vec::new();
+            for n in [1usize, 5, 64] {
+                let mut w = crate::engine::Gather::new(n);
+                let res = l.write_to(&mut w);
+                let got = w.buf.into_inner();
+                if res.is_err() || got != want {
+                    bad.push(("gather-writer".to_string(), format!("write_to into a writer with a gathered write limited to {} bytes per call: result {:?}, {} bytes written, the vector build has {}; first difference at {:?}", n, res.map_err(|e| format!("{:?}", e)), got.len(), want.len(), got.iter().zip(want.iter()).position(|(a, b)| a != b))));
+                }
+                let mut w = crate::engine::Drip::new(n);
+                let res = l.write_to(&mut w);
+                let got = w.buf.into_inner();
+                if res.is_err() || got != want {
+                    bad.push(("drip-writer".to_string(), format!("write_to into a writer accepting {} bytes per call: result {:?}, {} bytes written, the vector build has {}", n, res.map_err(|e| format!("{:?}", e)), got.len(), want.len())));
+                }
+            }
+            Ok(bad)
+        });
+        match r {
+            Err(pn) => out.push(finding(format!("C09|build|writer|{}", pn.sig()), format!("{:?}", pn), mk())),
+            Ok(Err(_)) => {}
+            Ok(Ok(bad)) => {
+                for (t, d) in bad {
+                    out.push(finding(format!("C09|build|{}", t), d, mk()));
+                }
+            }
+        }
+    }
     for compressed in [false, true] {
         let r = guarded(|| {
             to_lib(p).and_then(|l| if compressed { l.build_bytes_vec_compressed() } else { l.build_bytes_vec() }.map_err(|e| format!("{:?}", e)))
@@ -193,7 +227,7 @@ pub fn check_parse(p: &RefPacket, opt_pos: usize) -> Vec<Finding> {
 
 pub fn run(ctx: &Ctx) {
     let thorough = ctx.tier == crate::engine::Tier::Thorough;
-    ctx.set_rule("build side: 12 named rcodes x versions 0..=255 x all 65536 udp sizes x option lists (one list per size, all lists every 256th size; all lists every 16th size in the thorough tier) (<= 3 options over codes {0,1,0xffff} and data lengths {0,1,2,300}) x 0..=2 other additional records, plain and compressed, inspected by an independent walker; parse side: reference-encoded RFC 6891 messages with the OPT record at every index of the additional section, 12-bit rcodes incl. unnamed ones. non-trivial = non-default version, rcode > 15, options present or OPT not last");
+    ctx.set_rule("build side: 12 named rcodes x versions 0..=255 x all 65536 udp sizes x option lists (one list per size, all lists every 2048th size; all lists every 256th size in the thorough tier) (<= 3 options over codes {0,1,0xffff} and data lengths {0,1,2,300}) x 0..=2 other additional records, plain and compressed, inspected by an independent walker; parse side: reference-encoded RFC 6891 messages with the OPT record at every index of the additional section, 12-bit rcodes incl. unnamed ones. non-trivial = non-default version, rcode > 15, options present or OPT not last");
     ctx.assume("RFC 6891 6.1.2/6.1.3: OPT owner root, CLASS = UDP size, TTL = ext-rcode(8) version(8) DO+Z(16); flags word is written as 0 and ignored on input (the library does not expose it)");
     let udp_b: Vec<u16> = vec![0, 1, 0xff, 0x100, 512, 1232, 4096, 0x7fff, 0x8000, 0xfffe, 0xffff];
     let lists = option_lists();
@@ -213,7 +247,7 @@ pub fn run(ctx: &Ctx) {
     // every udp size (boundary / all) x every option list at fixed rcode/version
     let udps: Vec<u16> = (0..=65535u16).collect();
     for (j, udp) in udps.iter().enumerate() {
-        let ls: Vec<&Vec<(u16, B)>> = if j % (if thorough { 16 } else { 256 }) != 0 { vec![&lists[j % lists.len()]] } else { lists.iter().collect() };
+        let ls: Vec<&Vec<(u16, B)>> = if j % (if thorough { 256 } else { 2048 }) != 0 { vec![&lists[j % lists.len()]] } else { lists.iter().collect() };
         for list in ls {
             for n in 0..3 {
                 if thorough && n != j % 3 && j % 256 != 0 {
